@@ -68,7 +68,7 @@ class Peer (object):
       if guard > 100000: raise AdapterError("Connection.read does not drain")
     return True
 
-  def handshake (self, dpid, ports, n_buffers=0, early=b"", barrier="reply"):
+  def handshake (self, dpid, ports, n_buffers=0, early=b"", barrier="reply", late=b""):
     """Full handshake; returns True when ConnectionUp should have fired.
     `early`: bytes the switch sends between its features reply and the
     barrier reply (e.g. port-status messages).  barrier="error": the switch
@@ -86,10 +86,12 @@ class Peer (object):
     if bx is None:
       raise AdapterError("no barrier request after features reply")
     if early: self.feed(early)
+    # (`late`: bytes that follow the handshake-completing answer in the same
+    #  read - the switch does not wait for the controller)
     if barrier == "error":
       self.feed(ofwire.enc_message("error", dict(
         xid=bx, type=1, code=1,
-        data=ofwire.enc_message("barrier_request", dict(xid=bx)))))
+        data=ofwire.enc_message("barrier_request", dict(xid=bx)))) + late)
     else:
-      self.feed(ofwire.enc_message("barrier_reply", dict(xid=bx)))
+      self.feed(ofwire.enc_message("barrier_reply", dict(xid=bx)) + late)
     return True
